@@ -719,8 +719,7 @@ Definition h_zrangebyscore (rev : bool) (args : list bytes) : hres :=
   need 3 args
     (let imin := if rev then 2 else 1 in
      let imax := if rev then 1 else 2 in
-     (* the code tests the bytes in the order: Args[imin][0], parse min, Args[imax][0], parse max;
-        for the REV form the mode bits are attached to the other bound *)
+     (* the code tests the bytes in the order: Args[imin][0], parse min, Args[imax][0], parse max *)
      match first_byte_paren (arg imin args) with
      | None => HPanic
      | Some pmin =>
@@ -735,8 +734,7 @@ Definition h_zrangebyscore (rev : bool) (args : list bytes) : hres :=
                  | FErr => HErr
                  | FUnmodelled => HUnm
                  | FOk mx =>
-                     let mode := if rev then (if pmin then 2 else 0) + (if pmax then 1 else 0)
-                                 else (if pmin then 1 else 0) + (if pmax then 2 else 0) in
+                     let mode := (if pmin then 1 else 0) + (if pmax then 2 else 0) in
                      match parse_limit args with
                      | LimPanic => HPanic
                      | LimErr => HErr
